@@ -34,7 +34,10 @@ SharedTexts == <<
   \* about zones is first filled while several goroutines ask at once (zone rules are not specified: the value is open)
   << Tk("Id", "hour"), OpK("("), Tk("Id", "useTimezone"), OpK("("), Tk("Id", "t"), OpK(","), Tk("Id", "z"), OpK(")"), OpK(")") >>,
   \* len(toString(m)) : a map formatted as text by every goroutine (the text itself is not specified)
-  << Tk("Id", "len"), OpK("("), Tk("Id", "toString"), OpK("("), Tk("Id", "m"), OpK(")"), OpK(")") >> >>
+  << Tk("Id", "len"), OpK("("), Tk("Id", "toString"), OpK("("), Tk("Id", "m"), OpK(")"), OpK(")") >>,
+  \* st.A + st.B.a : fields of a Go struct (whatever the library remembers about a struct type is first filled while
+  \* several goroutines ask at once: every goroutine starts each round with this formula)
+  << Tk("Id", "st"), OpK("."), Tk("Id", "A"), OpK("+"), Tk("Id", "st"), OpK("."), Tk("Id", "B"), OpK("."), Tk("Id", "a") >> >>
 Datas == << [a |-> <<"int", 1>>, b |-> <<"int", 2>>],
             [a |-> <<"dec", FALSE, <<1>>, 1>>, b |-> <<"f64", FALSE, <<5>>, -1>>],
             [a |-> <<"int64", FALSE, <<9,0,0,7,1,9,9,2,5,4,7,4,0,9,9,3>>>>, b |-> <<"int", -3>>],
@@ -65,7 +68,8 @@ Datas == << [a |-> <<"int", 1>>, b |-> <<"int", 2>>],
             [t |-> <<"time", 19000, 3600000, 0>>, z |-> <<"str", <<80,97,99,105,102,105,99,47,70,105,106,105>>>>],
             [t |-> <<"time", 19000, 3600000, 0>>, z |-> <<"str", <<65,109,101,114,105,99,97,47,66,111,103,111,116,97>>>>],
             [t |-> <<"time", 19000, 3600000, 0>>, z |-> <<"str", <<69,117,114,111,112,101,47,65,116,104,101,110,115>>>>],
-            [t |-> <<"time", 19000, 3600000, 0>>, z |-> <<"str", <<65,115,105,97,47,75,97,114,97,99,104,105>>>>] >>
+            [t |-> <<"time", 19000, 3600000, 0>>, z |-> <<"str", <<65,115,105,97,47,75,97,114,97,99,104,105>>>>] ,
+            [st |-> <<"struct", [A |-> <<"int", 4>>, B |-> <<"map", [a |-> <<"f64", FALSE, <<2,5>>, -1>>]>>, N |-> <<"nilptr">>, P |-> <<"str", <<112>>>>], <<"c">>>>] >>
 \* texts (bytes) that other goroutines parse meanwhile: escapes, long literals, a rejected one
 ParseTexts == << <<39,92,117,52,70,49,49,92,117,52,70,51,52,39,43,39,92,120,52,49,39>>,      \* '\u4F11\u4F34'+'\x41'
                  <<39,92,117,48,48,52,49,92,120,54,50,92,117,52,101,50,100,39>>,            \* '\u0041\x62\u4e2d'
